@@ -354,7 +354,8 @@ impl PrettyPrinter {
         self.column_widths.extend(new_column_widths);
         let new_columns = self.new_columns(&(record.data));
         self.column_order.extend(new_columns);
-        if self.column_order.is_empty() {
+        // a row without fields is shown as its line, wherever it stands in the stream
+        if record.data.is_empty() {
             return record.raw.trim_end().to_string();
         }
 
